@@ -67,11 +67,15 @@ type scriptedConn struct {
 	wmu        sync.Mutex
 	inWrite    int
 	overlap    int
+	wbudget    int64 // bytes the writer may write before it is cut off (0 = no limit)
+	written    int64
+	overrun    bool
+	overrunCh  chan struct{}
 }
 
 func newScriptedConn(l *evlog) *scriptedConn {
 	return &scriptedConn{log: l, feed: make(chan []byte, 1<<16), fail: make(chan struct{}, 1),
-		closedCh: make(chan struct{}), readWait: make(chan struct{}, 1)}
+		closedCh: make(chan struct{}), readWait: make(chan struct{}, 1), overrunCh: make(chan struct{})}
 }
 
 func (c *scriptedConn) Read(p []byte) (int, error) {
@@ -119,6 +123,27 @@ func (c *scriptedConn) Write(p []byte) (int, error) {
 	c.wmu.Unlock()
 	if c.writeDelay > 0 {
 		time.Sleep(c.writeDelay)
+	}
+	if c.wbudget > 0 {
+		// a writer that keeps writing (far more than was submitted) is cut off: the log stays finite and the judge sees "Overrun"
+		c.wmu.Lock()
+		c.written += int64(len(p))
+		over, first := c.written > c.wbudget, !c.overrun
+		if over {
+			c.overrun = true
+		}
+		c.inWrite--
+		c.wmu.Unlock()
+		if over {
+			if first {
+				c.log.add(J{"e": "Overrun", "written": int(c.written)})
+				close(c.overrunCh)
+			}
+			select {} // (an error return would make the library exit the process: log.Fatalf in outbound())
+		}
+		c.wmu.Lock()
+		c.inWrite++
+		c.wmu.Unlock()
 	}
 	c.log.add(J{"e": "W", "b": byteList(p)})
 	c.wmu.Lock()
@@ -620,6 +645,7 @@ func runStreamOut(sc J) J {
 		}
 	}
 	obs["msgs"] = encs
+	conn.wbudget = 2*int64(total) + 1<<20
 	var wg sync.WaitGroup
 	start := make(chan struct{})
 	for p := 0; p < P; p++ {
@@ -644,11 +670,13 @@ func runStreamOut(sc J) J {
 	timeout := false
 	select {
 	case <-done:
+	case <-conn.overrunCh:
+		timeout = true
 	case <-time.After(120 * time.Second):
 		timeout = true
 	}
 	// wait until the wire is quiet
-	for lg.idleFor() < 300*time.Millisecond {
+	for !timeout && lg.idleFor() < 300*time.Millisecond {
 		time.Sleep(5 * time.Millisecond)
 	}
 	lg.add(J{"e": "End", "timeout": timeout})
